@@ -3,8 +3,9 @@
    that returns an error other than an I/O error leaves the whole writer state unchanged, and the rest of the run is what it
    would have been without the call (C19_insert_rejected).  For flush()/into_inner() this holds since the repair D26 (/repo commit
    "a failing flush() leaves the writer as it was"): before it, a flush that failed to close an outer master left the inner ones
-   closed; the model's [flush] follows the repaired code.  Only an I/O error of the destination can leave a trace (bytes of the
-   working buffer are lost: C10_flush_failure, C10_private_flush_bytes). *)
+   closed; the model's [flush] follows the repaired code.  Only an I/O error of the destination can leave a trace: the call's tag
+   has been accepted, part of the working buffer has been delivered and the rest stays buffered for the next hand-over (since the
+   repair D28 nothing is lost: C10_flush_failure, C10_private_flush_bytes, C10_io_error_loses_nothing). *)
 From Ebml Require Import Base Tools Spec Writer Proofs.Tactics Proofs.SpecProofs Proofs.WriterProofs Proofs.AuditWriter.
 
 (* write()/write_advanced()/write_unknown_size(): if the call returns an error other than an I/O error, the whole writer
